@@ -35,6 +35,8 @@ GPG_STATES = [
     ("valid", "valid"),
     ("valid_randhdr", "valid"),
     ("valid_see_also", "valid"),
+    ("valid_see_also_digits_only", "valid"),
+    ("valid_see_also_letters_only", "valid"),
     ("valid_nonce", "valid"),
     ("valid_longhdr", "valid"),
     ("malleated", "invalid"),
@@ -163,6 +165,10 @@ def make_gpg(state, key, data, rng):
         return openpgp.make_entry(seed, data, _hdr(rng, "long"))
     if state == "valid_see_also":
         return openpgp.make_entry(seed, data, _hdr(rng), see_also=_fp(rng).hex())
+    if state == "valid_see_also_digits_only":
+        return openpgp.make_entry(seed, data, _hdr(rng), see_also="".join(rng.choice("0123456789") for _ in range(40)))
+    if state == "valid_see_also_letters_only":
+        return openpgp.make_entry(seed, data, _hdr(rng), see_also="".join(rng.choice("abcdef") for _ in range(40)))
     if state == "valid_nonce":
         return openpgp.make_entry(seed, data, _hdr(rng), nonce=rng.getrandbits(252))
     h = _hdr(rng)
